@@ -1,7 +1,452 @@
+// Package c07 checks property C07 (EVM transactions conserve ONG and advance the sender nonce by
+// one) on the real StateStore.HandleEIP155Transaction over a ledgerkit chain:
+//   - direct property oracle on the implementation (conservation over ALL ONG balance records of the
+//     state, charge bound, nonce step, rejection without state change, frame, exact fee, failed
+//     transactions cost the fee only),
+//   - the interpreter hypotheses of the Coq theorems (H1 sum, H2 revert, gas, nonce, debit, alive)
+//     checked on every observed interpreter invocation,
+//   - correspondence cases for Model/EvmEnvelope.v (Corr/C07.v), the interpreter's observed effect
+//     supplied as the model's [run].
 package c07
 
-import "verif/harness/hx"
+import (
+	"encoding/json"
+	"errors"
+	"fmt"
+	"math/big"
+	"math/rand"
+	"sort"
+
+	"github.com/ontio/ontology/common"
+	"github.com/ontio/ontology/common/constants"
+	sevm "github.com/ontio/ontology/smartcontract/service/evm"
+
+	"verif/harness/hx"
+)
 
 func init() { hx.Register("C07", Run) }
 
-func Run(c *hx.Ctx) {}
+const (
+	classSelfdestruct = "evm:selfdestruct-to-self-burns-ong"
+	classRefundHeight = "evm:refund-height-mints-ong"
+)
+
+func mulU(a uint64, b *big.Int) *big.Int { return new(big.Int).Mul(new(big.Int).SetUint64(a), b) }
+
+// judge: oracle + hypotheses + correspondence case for one applied transaction.
+func (w *world) judge(sc *Scenario, ti *txInfo, ob *observation) {
+	c := w.c
+	fail := func(class, clause string, got, want interface{}) {
+		c.Fail(class, clause, sc, got, want)
+	}
+	if ob.panicA != "" {
+		fail("evm:handler-panic", "HandleEIP155Transaction panicked", ob.panicA, "no panic")
+		return
+	}
+	kind := "call"
+	switch {
+	case ti.to == nil:
+		kind = "create"
+	case ob.pre.hasCode(*ti.to):
+		kind = "call-contract"
+	default:
+		kind = "transfer"
+	}
+	c.Count("tx:" + kind)
+	c.Count(fmt.Sprintf("chain:%d", ti.chain))
+	switch {
+	case ti.height == uint32(sevm.RefundHeight):
+		c.Count("height:refund-height")
+	case ti.height >= buyGasFixHeight:
+		c.Count("height:>=15380000")
+	default:
+		c.Count("height:<15380000")
+	}
+
+	// ---- A and B must agree (B only adds observation points) ----
+	agree := (ob.err == nil) == (ob.errB == nil)
+	if agree && ob.err == nil {
+		agree = ob.res.UsedGas == ob.resB.UsedGas && errCode(ob.res.Err) == errCode(ob.resB.Err) && dumpsEqual(ob.post, ob.postB)
+	}
+	if !agree {
+		fail("harness:instrumented-path-diverges", "ApplyTransaction with tracer differs from HandleEIP155Transaction",
+			fmt.Sprint(ob.err, ob.res), fmt.Sprint(ob.errB, ob.resB))
+		return
+	}
+
+	from := ti.from
+	want := mulU(ti.spec.GasLimit, ti.price)
+	have := ob.pre.bal(from)
+	adjusted := have.Cmp(want) < 0
+
+	// ---- clause 4: nonce mismatch => error, nothing changed ----
+	mismatch := ti.checkNon && ti.nonce != ti.stNonce
+	if mismatch {
+		c.Count("nonce:mismatch")
+		if ob.err == nil {
+			fail("evm:nonce-mismatch-accepted", "a transaction whose nonce differs from the account nonce was applied",
+				fmt.Sprintf("tx nonce %d state nonce %d: applied", ti.nonce, ti.stNonce), "error")
+			return
+		}
+		wantErr := sevm.ErrNonceTooLow
+		code := 2
+		if ti.stNonce < ti.nonce {
+			wantErr, code = sevm.ErrNonceTooHigh, 1
+		}
+		if !errors.Is(ob.err, wantErr) {
+			fail("evm:nonce-mismatch-wrong-error", "wrong error for a nonce mismatch", ob.err.Error(), wantErr.Error())
+		}
+		if !dumpsEqual(ob.pre, ob.post) {
+			fail("evm:rejected-tx-changed-state", "a rejected transaction changed the state", fmt.Sprint(diffAddrs(ob.pre, ob.post)), "no change")
+		}
+		if !ob.dbErr {
+			fail("evm:rejected-tx-no-overlay-error", "HandleEIP155Transaction did not record the error on the overlay", "nil", "error")
+		}
+		c.Nontrivial(fmt.Sprintf("rej|%d|%d|%d", ti.chain, ti.nonce, ti.stNonce))
+		w.emitTx(sc, ti, ob, fmt.Sprintf("(ObsErr %d)", code), nil)
+		return
+	}
+	if ob.err != nil {
+		fail("evm:valid-tx-rejected", "a transaction with the right nonce was rejected", ob.err.Error(), "applied")
+		return
+	}
+	if ob.dbErr {
+		fail("evm:storage-error", "overlay error after a successful HandleEIP155Transaction", "error", "nil")
+		return
+	}
+	c.Count("nonce:ok")
+	if ti.checkNon {
+		c.Count("path:block")
+	} else {
+		c.Count("path:preexec")
+	}
+	ec := errCode(ob.res.Err)
+	c.Count(fmt.Sprintf("vmerr:%d", ec))
+	if adjusted {
+		c.Count("buygas:adjusted")
+	}
+
+	// ---- what the interpreter did (path B) ----
+	ran := ob.tr.ended
+	preRun, postRun := ob.spy.preRun, ob.tr.postRun
+	if !ran {
+		postRun = ob.spy.firstAdd
+		if ec >= 100 {
+			c.Count("oracle:interpreter-unobserved")
+		}
+	}
+	if preRun == nil || postRun == nil {
+		fail("harness:no-observation", "path B made no balance operation", "nil", "buyGas")
+		return
+	}
+	burned := new(big.Int).Sub(preRun.total(), postRun.total()) // > 0: the interpreter destroyed ONG
+
+	// ---- interpreter hypotheses, on this invocation ----
+	if ran {
+		c.Count("run:observed")
+		if ob.tr.gasLeft > ob.tr.gasIn {
+			fail("evm:interpreter-returns-more-gas", "H_gas: left-over gas exceeds the gas supplied", ob.tr.gasLeft, ob.tr.gasIn)
+		}
+		if burned.Sign() != 0 {
+			if ob.tr.sdSelf && burned.Sign() > 0 {
+				c.Count("run:selfdestruct-self-burn")
+				if ti.chain != constants.EIP155_CHAINID_MAINNET {
+					fail(classSelfdestruct, "H1: the interpreter invocation changed the ONG sum (SELFDESTRUCT with beneficiary = self)",
+						"sum after run "+postRun.total().String(), "sum before run "+preRun.total().String())
+				}
+			} else {
+				fail("evm:interpreter-changes-ong-sum", "H1: the interpreter invocation changed the ONG sum",
+					postRun.total().String(), preRun.total().String())
+			}
+		}
+		if postRun.nonce(from) != preRun.nonce(from)+1 {
+			fail("evm:interpreter-sender-nonce", "H_nonce: sender nonce after the invocation is not the pre-transaction nonce + 1",
+				postRun.nonce(from), preRun.nonce(from)+1)
+		}
+		if new(big.Int).Add(postRun.bal(from), ti.value).Cmp(preRun.bal(from)) < 0 {
+			fail("evm:interpreter-debits-sender", "H_debit: the invocation debited the sender by more than the value",
+				postRun.bal(from).String(), preRun.bal(from).String())
+		}
+		for _, a := range ob.tr.suicided {
+			if a == from {
+				fail("evm:sender-selfdestructed", "H_alive: the sender is in the suicide set", "suicided", "alive")
+			}
+		}
+		if ob.tr.err != nil {
+			c.Count("run:failed")
+			bad := ""
+			for _, a := range diffAddrs(preRun, postRun) {
+				if a == from && postRun.bal(a).Cmp(preRun.bal(a)) == 0 && postRun.Acct[a].CodeHash == preRun.Acct[a].CodeHash {
+					continue // the nonce step
+				}
+				bad += fmt.Sprintf(" %x", a[:])
+			}
+			if bad != "" || !rawEqual(preRun, postRun) || ob.tr.refund != 0 || len(ob.tr.suicided) != 0 {
+				fail("evm:failed-run-left-changes", "H2: a failing invocation left state changes behind",
+					fmt.Sprintf("accounts%s rawEqual=%v refund=%d suicided=%d", bad, rawEqual(preRun, postRun), ob.tr.refund, len(ob.tr.suicided)), "as at the snapshot")
+			}
+		}
+	}
+
+	// ---- clause 1: ONG sum over ALL balance records ----
+	delta := new(big.Int).Sub(ob.post.total(), ob.pre.total())
+	expect := new(big.Int).Neg(burned)
+	mint := adjusted && ti.height == uint32(sevm.RefundHeight)
+	if mint {
+		expect.Add(expect, sevm.RefundValue)
+		c.Count("gasfee:compensation-paid")
+	}
+	dusty := adjusted && ti.chain == constants.EIP155_CHAINID_MAINNET && ti.height < buyGasFixHeight
+	if dusty {
+		dust := new(big.Int).Mod(have, ti.price)
+		expect.Sub(expect, dust)
+		if dust.Sign() != 0 {
+			c.Count("buygas:mainnet-dust-kept")
+		}
+	}
+	if delta.Cmp(expect) != 0 {
+		fail("evm:ong-accounting", "the change of the ONG sum is not (compensation - dust - burned by the interpreter)", delta.String(), expect.String())
+	}
+	if ti.chain != constants.EIP155_CHAINID_MAINNET && delta.Sign() != 0 {
+		switch {
+		case mint && burned.Sign() == 0:
+			fail(classRefundHeight, "ONG sum changed on a non-mainnet chain id (handleGasFee at RefundHeight)", delta.String(), "0")
+		case burned.Sign() > 0 && ob.tr.sdSelf && !mint:
+			// already reported under classSelfdestruct
+		default:
+			fail("evm:ong-total-changed", "ONG sum changed on a non-mainnet chain id", delta.String(), "0")
+		}
+	}
+
+	// ---- clause 2: charge bound ----
+	paid := new(big.Int).Sub(ob.pre.bal(from), ob.post.bal(from))
+	bound := new(big.Int).Add(want, ti.value)
+	if paid.Cmp(bound) > 0 {
+		fail("evm:sender-overcharged", "sender paid more than gasLimit*gasPrice + value", paid.String(), bound.String())
+	}
+	// ---- clause 3: nonce + 1, success or failure ----
+	if ob.post.nonce(from) != ob.pre.nonce(from)+1 {
+		fail("evm:nonce-step", "sender nonce did not advance by exactly one", ob.post.nonce(from), ob.pre.nonce(from)+1)
+	}
+	// ---- frame: outside the interpreter only sender and fee receiver move ----
+	for _, a := range diffAddrs(ob.pre, ob.post) {
+		if a == from || a == feeReceiver {
+			continue
+		}
+		if ob.post.bal(a).Cmp(postRun.bal(a)) != 0 || preRun.bal(a).Cmp(ob.pre.bal(a)) != 0 {
+			fail("evm:envelope-touches-third-party", "a balance other than sender / fee receiver changed outside the interpreter",
+				fmt.Sprintf("%x: %s -> %s", a[:], ob.pre.bal(a), ob.post.bal(a)), "only inside the interpreter")
+		}
+	}
+	// ---- exact fee ----
+	fee := mulU(ob.res.UsedGas, ti.price)
+	if ob.res.UsedGas > ti.spec.GasLimit {
+		fail("evm:used-gas-exceeds-limit", "UsedGas > gas limit", ob.res.UsedGas, ti.spec.GasLimit)
+	}
+	if from != feeReceiver {
+		got := new(big.Int).Sub(ob.post.bal(feeReceiver), postRun.bal(feeReceiver))
+		if got.Cmp(fee) != 0 {
+			fail("evm:fee-not-used-gas-times-price", "fee receiver was not paid UsedGas*gasPrice", got.String(), fee.String())
+		}
+	}
+	// ---- failed transactions cost the fee and change nothing else ----
+	if ob.res.Err != nil {
+		for _, a := range diffAddrs(ob.pre, ob.post) {
+			if a == from || a == feeReceiver {
+				continue
+			}
+			fail("evm:failed-tx-changed-state", "a failed transaction changed a third account", fmt.Sprintf("%x", a[:]), "unchanged")
+		}
+		if !rawEqual(ob.pre, ob.post) {
+			fail("evm:failed-tx-changed-state", "a failed transaction changed contract storage", "changed", "unchanged")
+		}
+		if !mint && !dusty && from != feeReceiver && paid.Cmp(fee) != 0 {
+			fail("evm:failed-tx-charge", "a failed transaction did not cost exactly UsedGas*gasPrice", paid.String(), fee.String())
+		}
+	}
+	if ec != 0 || adjusted || kind != "transfer" {
+		c.Nontrivial(fmt.Sprintf("tx|%s|%d|%d|%v|%s|%d|%s|%s", kind, ti.chain, ec, adjusted, ti.spec.To, ti.spec.GasLimit, ti.spec.Value, ti.spec.Data))
+	}
+	fl := "None"
+	if ec != 0 {
+		fl = fmt.Sprintf("(Some %d)", ec)
+	}
+	w.emitTx(sc, ti, ob, fmt.Sprintf("(ObsOk %d %s)", ob.res.UsedGas, fl), postRun)
+}
+
+// ---------- correspondence cases ----------
+
+func (w *world) acctList(d *dump, set []common.Address) string {
+	var items []string
+	for _, a := range set {
+		items = append(items, fmt.Sprintf("(mkA %d %s %d %s)", w.id(a), d.bal(a).String(), d.nonce(a), hx.CoqBool(d.hasCode(a))))
+	}
+	return hx.CoqList(items)
+}
+
+func (w *world) emitTx(sc *Scenario, ti *txInfo, ob *observation, obs string, postRun *dump) {
+	set := map[common.Address]bool{ti.from: true, feeReceiver: true}
+	if ti.to != nil {
+		set[*ti.to] = true
+	}
+	add := func(x, y *dump) {
+		if x == nil || y == nil {
+			return
+		}
+		for _, a := range diffAddrs(x, y) {
+			set[a] = true
+		}
+	}
+	add(ob.pre, ob.post)
+	if ob.spy != nil {
+		add(ob.pre, ob.spy.preRun)
+		add(ob.spy.preRun, postRun)
+		add(postRun, ob.post)
+	}
+	if ob.tr != nil {
+		for _, a := range ob.tr.suicided {
+			set[a] = true
+		}
+	}
+	var accts []common.Address
+	for a := range set {
+		accts = append(accts, a)
+	}
+	sort.Slice(accts, func(i, j int) bool { return w.id(accts[i]) < w.id(accts[j]) })
+
+	to := "None"
+	if ti.to != nil {
+		to = fmt.Sprintf("(Some %d)", w.id(*ti.to))
+	}
+	msg := fmt.Sprintf("(mkMsg %d %s %d %s %d %s %s %s)", w.id(ti.from), to, ti.nonce, ti.price.String(), ti.spec.GasLimit,
+		ti.value.String(), hx.CoqBytes(ti.data), hx.CoqBool(ti.checkNon))
+	oracle := "NoRun"
+	if ob.err == nil {
+		ec := errCode(ob.res.Err)
+		switch {
+		case ob.tr.ended:
+			re := "None"
+			if ob.tr.err != nil {
+				re = fmt.Sprintf("(Some %d)", runErrCode(ob.tr.err))
+			}
+			var su []string
+			for _, a := range ob.tr.suicided {
+				su = append(su, fmt.Sprint(w.id(a)))
+			}
+			oracle = fmt.Sprintf("(Ran %s %d %s %d %d %s %s %s)", hx.CoqBool(ob.tr.create), ob.tr.gasIn, ob.spy.preRun.bal(ti.from).String(),
+				ob.tr.gasLeft, ob.tr.refund, re, w.acctList(postRun, accts), hx.CoqList(su))
+		case ec >= 100:
+			w.c.Count("case:skipped-unobserved-run")
+			return
+		}
+	}
+	term := fmt.Sprintf("(CTx %d %d %d %s %s %s %s %s)", ti.chain, ti.height, w.id(feeReceiver), w.acctList(ob.pre, accts), msg, oracle, obs,
+		w.acctList(ob.post, accts))
+	w.c.Case(term, sc)
+	w.c.Sample(map[string]interface{}{"scenario": sc, "observed": obs})
+
+	// SELFDESTRUCT correspondence: a direct call of one of the three one-instruction library contracts
+	if ob.err == nil && ob.tr.ended && ob.tr.err == nil && ti.to != nil && ob.tr.sdAny {
+		for i, l := range w.lib[:7] {
+			if l.Addr != *ti.to {
+				continue
+			}
+			var ben common.Address
+			switch i {
+			case 4:
+				ben = w.plain[0]
+			case 5:
+				ben = l.Addr
+			case 6:
+				ben = ti.from
+			default:
+				continue
+			}
+			all := append([]common.Address{}, accts...)
+			if !set[ben] {
+				all = append(all, ben)
+			}
+			var su []string
+			for _, a := range ob.tr.suicided {
+				su = append(su, fmt.Sprint(w.id(a)))
+			}
+			w.c.Case(fmt.Sprintf("(CSuicide %s %d %d %s %d %s %s)", w.acctList(ob.spy.preRun, all), w.id(ti.from), w.id(*ti.to), ti.value.String(),
+				w.id(ben), w.acctList(postRun, all), hx.CoqList(su)), sc)
+			w.c.Count("case:selfdestruct")
+		}
+	}
+}
+
+// ---------- deterministic probes (the witnesses of Props/C07.v, replayed on the implementation) ----------
+
+func (w *world) probes(libSeed int64) []*Scenario {
+	price := uint64(2500)
+	wei := new(big.Int).Mul(big.NewInt(2500), big.NewInt(constants.GWei))
+	short := new(big.Int).Add(new(big.Int).Mul(big.NewInt(30000), wei), big.NewInt(5)).String()
+	return []*Scenario{
+		{LibSeed: libSeed, ChainID: constants.EIP155_CHAINID_POLARIS, Height: 100, Note: "c07_refuted_by_selfdestruct_self",
+			Pre: []PreOp{{"s3", "1000000000000000000"}, {"l5", "5000"}},
+			Txs: []TxSpec{{From: 3, PriceGwei: price, GasLimit: 100000, Value: "7", To: "l5"}}},
+		{LibSeed: libSeed, ChainID: constants.EIP155_CHAINID_POLARIS, Height: uint32(sevm.RefundHeight), Note: "c07_refuted_at_refund_height",
+			Pre: []PreOp{{"s3", short}},
+			Txs: []TxSpec{{From: 3, PriceGwei: price, GasLimit: 100000, Value: "0", To: "p3"}}},
+		{LibSeed: libSeed, ChainID: constants.EIP155_CHAINID_MAINNET, Height: 100, Note: "c07_mainnet_dust_burned",
+			Pre: []PreOp{{"s3", short}},
+			Txs: []TxSpec{{From: 3, PriceGwei: price, GasLimit: 100000, Value: "0", To: "p3"}}},
+		{LibSeed: libSeed, ChainID: constants.EIP155_CHAINID_POLARIS, Height: 100, Note: "c07_nonvacuous",
+			Pre: []PreOp{{"s3", "1000000000000000000"}, {"p3", "40"}},
+			Txs: []TxSpec{{From: 3, PriceGwei: price, GasLimit: 30000, Value: "12345", To: "p3"}}},
+		// SELFDESTRUCT to self inside a constructor (endowment burned) and through a nested call
+		{LibSeed: libSeed, ChainID: constants.EIP155_CHAINID_POLARIS, Height: 100, Note: "constructor selfdestructs to itself",
+			Txs: []TxSpec{{From: 0, PriceGwei: price, GasLimit: 200000, Value: "1000", To: "", Data: hx.Hex(codeSelfdestructSelf())}}},
+		{LibSeed: libSeed, ChainID: constants.EIP155_CHAINID_POLARIS, Height: 100, Note: "nested call into sd_self",
+			Txs: []TxSpec{{From: 0, PriceGwei: price, GasLimit: 200000, Value: "900", To: "l12"}}},
+		// SELFDESTRUCT to another address conserves
+		{LibSeed: libSeed, ChainID: constants.EIP155_CHAINID_POLARIS, Height: 100, Note: "sd_other",
+			Pre: []PreOp{{"l4", "777"}},
+			Txs: []TxSpec{{From: 0, PriceGwei: price, GasLimit: 200000, Value: "5", To: "l4"}}},
+		// storage refund: set then clear
+		{LibSeed: libSeed, ChainID: constants.EIP155_CHAINID_POLARIS, Height: 100, Note: "sstore refund",
+			Txs: []TxSpec{{From: 0, PriceGwei: price, GasLimit: 100000, Value: "0", To: "l10", Data: "01"},
+				{From: 0, PriceGwei: price, GasLimit: 100000, Value: "0", To: "l10"}}},
+	}
+}
+
+func Run(c *hx.Ctx) {
+	c.CoqModule("Corr.C07")
+	libSeed := c.Seed
+	var replay Scenario
+	isReplay := c.ReplayInput(&replay)
+	if isReplay {
+		libSeed = replay.LibSeed
+	}
+	w, err := newWorld(c)
+	if err != nil {
+		panic(err)
+	}
+	defer w.close()
+	if err := w.buildBase(libSeed); err != nil {
+		c.Fail("harness:base-chain", "could not build the base chain", nil, err.Error(), "ok")
+		return
+	}
+	if isReplay {
+		w.runScenario(&replay)
+		return
+	}
+	for _, raw := range c.CorpusInputs() {
+		var sc Scenario
+		if json.Unmarshal(raw, &sc) == nil && sc.LibSeed == libSeed {
+			w.runScenario(&sc)
+		}
+	}
+	for _, sc := range w.probes(libSeed) {
+		w.runScenario(sc)
+	}
+	g := &generator{r: rand.New(rand.NewSource(c.Rng.Int63())), w: w}
+	n := c.N(130, 1500)
+	for i := 0; i < n; i++ {
+		sc := g.scenario()
+		sc.LibSeed = libSeed
+		w.runScenario(sc)
+	}
+}
